@@ -86,16 +86,20 @@ PROPS: dict[str, dict[str, Any]] = {
         "sidecars": [],
         "bounded": [{"script": "bounded/store_harness.py", "args": ["--mode", "c15"]}],
         "rule": "bounded stand-in: every history of <= 3 (thorough 4) runs with flags {ingest, no-ingest} x {unique graphs on/off} over 4 small stores "
-                "(complete traces; a trace with a missing parent; a single span; a dangling-only trace) on one file-backed sqlite database (tmpfs), each "
-                "run a fresh SQLDataHolder doing exactly what otel_to_pv does (clean x3, optional find_unique_graphs, stream + sequence); each run must "
-                "terminate, leave the store well-formed and give the PV sequences / selected shapes of the first run with the same flags. In-process "
-                "emulation of separate runs (the temp table is removed from Base.metadata between runs as a new process would not have it). "
-                "non-trivial = more than one run",
+                "(complete traces; a trace with a missing parent; a single span; a dangling-only trace; time_buffer 0) and over a store of six traces spread "
+                "over six minutes with time_buffer 1 (the first run trims the buffer zones; later runs must not trim further), on one file-backed sqlite "
+                "database (tmpfs). Each run is a call of the real entry point otel_to_pv(config, ingest_data, find_unique_graphs) - JSON data source, SQL "
+                "data holder, cleaning x3, optional find_unique_graphs, streaming + sequencing; each run must terminate, leave the store well-formed and "
+                "give the PV sequences / selected shapes of the first run with the same flags. In-process emulation of separate runs (the temp table is "
+                "removed from Base.metadata between runs as a new process would not have it). non-trivial = more than one run",
         "assumptions": ["bounded, not proved; runs are emulated in one process (fresh holder + engine per run on the same file)"],
     },
     "C16": {
         "level": "proof",
         "sidecars": ["contracts/c16.py"],
+        # the instant a PV string denotes must not depend on the machine's time zone: the runtime contracts are evaluated
+        # once under UTC and once under a zone with daylight saving
+        "native_envs": [{"TZ": "UTC"}, {"TZ": "CET-1CEST,M3.5.0,M10.5.0/3"}],
         "native_n": {"quick": 3000, "thorough": 200000},
     },
 }
